@@ -31,10 +31,10 @@ pub trait ToPayload {
     spec fn payload(&self) -> Payload;
 }
 
-// to_binary may fail (serialisation error) — then the caller returns Err; on Ok the payload is the value
+// serde serialisation of the repository's plain message enums cannot fail (T2); the payload is the value
 #[verifier::external_body]
 pub fn to_binary<T: ToPayload>(t: &T) -> (r: StdResult<Binary>)
-    ensures r is Ok ==> r->Ok_0.p@ == t.payload(),
+    ensures r is Ok, r->Ok_0.p@ == t.payload(),
 { unimplemented!() }
 
 // ---------- Response ----------
@@ -107,11 +107,12 @@ impl Clone for Response {
 }
 
 // ---------- Api ----------
+pub uninterp spec fn addr_valid(s: Seq<char>) -> bool;   // what the chain's address validation accepts
 pub struct Api { pub _a: Ghost<int> }
 impl Api {
     // addr_validate(s) returns the same text as an Addr, or Err (T2)
     #[verifier::external_body]
     pub fn addr_validate(&self, human: &str) -> (r: StdResult<Addr>)
-        ensures r is Ok ==> r->Ok_0@ == human@ && human@.len() > 0,   // a validated address is never empty (T2)
+        ensures r is Ok <==> addr_valid(human@), r is Ok ==> r->Ok_0@ == human@,
     { unimplemented!() }
 }
